@@ -710,3 +710,102 @@ Qed.
 
 End Fixed.
 End Model.
+
+(* ================================================================== *)
+(* Part D: constraints in readable form; the Series-level statements    *)
+(* ================================================================== *)
+Section Readable.
+Variable F : realFieldType.
+Notation O := (MCOps F).
+
+Lemma hp_level_rowE (k p : nat) :
+  stencil_coef hp_level_row (Z.sub (Z.of_nat k) (Z.of_nat p)) = if k == p then Zpos 1 else Z0.
+Proof. by rewrite /hp_level_row /=; do !case: Z.eqb_spec => ?; do !case: eqP => ?; lia. Qed.
+
+Lemma hp_change_rowE (k p : nat) :
+  stencil_coef hp_change_row (Z.sub (Z.of_nat k) (Z.of_nat p)) =
+  if k.+1 == p then Zneg 1 else if k == p then Zpos 1 else Z0.
+Proof. by rewrite /hp_change_row /=; do !case: Z.eqb_spec => ?; do !case: eqP => ?; lia. Qed.
+
+Lemma level_row n (lc : list (nat * F)) (t : 'cV[F]_n) (i : 'I_(length lc)) :
+  (cpos O lc i < n)%N -> (crows O hp_level_row n lc *m t) i 0 = vget t (cpos O lc i).
+Proof.
+move=> Hp; rewrite mxE.
+transitivity (\sum_(0 <= k < n) zF F (stencil_coef hp_level_row (Z.sub (Z.of_nat k) (Z.of_nat (cpos O lc i)))) * vget t k).
+  by rewrite big_mkord; apply: eq_bigr => k _; rewrite /crows !mxE vgetE.
+rewrite (@sum_support _ _ n [:: cpos O lc i]).
+- by rewrite big_cons big_nil hp_level_rowE eqxx zF_1 mul1r addr0.
+- by [].
+- by rewrite /= Hp.
+- by move=> k; rewrite inE => H; rewrite hp_level_rowE (negbTE H) zF_0 mul0r.
+Qed.
+
+Lemma change_row n (cc : list (nat * F)) (t : 'cV[F]_n) (i : 'I_(length cc)) :
+  (0 < cpos O cc i < n)%N ->
+  (crows O hp_change_row n cc *m t) i 0 = vget t (cpos O cc i) - vget t (cpos O cc i).-1.
+Proof.
+move=> /andP[Hp0 Hp]; rewrite mxE.
+set q := cpos O cc i in Hp0 Hp *.
+transitivity (\sum_(0 <= k < n) zF F (stencil_coef hp_change_row (Z.sub (Z.of_nat k) (Z.of_nat q))) * vget t k).
+  by rewrite big_mkord; apply: eq_bigr => k _; rewrite /crows !mxE vgetE.
+rewrite (@sum_support _ _ n [:: q.-1; q]).
+- rewrite !big_cons big_nil !hp_change_rowE prednK // !eqxx.
+  have -> : (q.+1 == q) = false by lia.
+  by rewrite zF_1 zF_m1; ring.
+- by rewrite /= !inE; lia.
+- by rewrite /=; lia.
+- move=> k; rewrite !inE negb_or => /andP[H1 H2].
+  rewrite hp_change_rowE (negbTE H2).
+  have -> : (k.+1 == q) = false by lia.
+  by rewrite zF_0 mul0r.
+Qed.
+
+(* Theorem: C t = c says: the trend equals every level constraint at its period, and the change of
+   the trend into the period of every change constraint equals its value *)
+Theorem hp_constraints_met n (lc cc : list (nat * F)) (t : 'cV[F]_n) :
+  hp_C O n lc cc *m t = hp_c O lc cc ->
+  (forall i, (i < length lc)%N -> (cpos O lc i < n)%N -> vget t (cpos O lc i) = cval O lc i) /\
+  (forall i, (i < length cc)%N -> (0 < cpos O cc i < n)%N ->
+             vget t (cpos O cc i) - vget t (cpos O cc i).-1 = cval O cc i).
+Proof.
+rewrite /hp_C /hp_c /= mul_col_mx => /eq_col_mx [HL HC]; split=> i Hi Hp.
+- have := congr1 (fun A : 'cV[F]_(length lc) => A (Ordinal Hi) 0) HL.
+  by rewrite (level_row t (i := Ordinal Hi)) // /cvec mxE.
+- have := congr1 (fun A : 'cV[F]_(length cc) => A (Ordinal Hi) 0) HC.
+  by rewrite (change_row t (i := Ordinal Hi)) // /cvec mxE.
+Qed.
+
+(* ---- Series level ---- *)
+Variable solve : forall m, 'M[F]_m -> 'cV[F]_m -> 'cV[F]_m.
+Variables lg ex : F -> F.
+
+(* Theorem: log=False: wherever the returned gap has a value, the data have one and trend + gap = data *)
+Theorem hpf_trend_plus_gap (a : hp_args O) (v : list (option F)) (t : Z) (g : F) :
+  a_log O a = false -> hpf_gap_at O solve lg ex a v t = Some g ->
+  exists y tr, at_period O (a_start O a) v t = Some y /\ hpf_trend_at O solve lg ex a v t = Some tr /\
+               tr + g = y.
+Proof.
+move=> Hl Hg; have [y [tr [H1 [H2 H3]]]] := hpf_gap_value O solve lg ex a v t g Hl Hg.
+by exists y, tr; split=> //; split=> //; rewrite H3 /= addrC subrK.
+Qed.
+
+(* Theorem: log=True: the trend is exp of the filter run on the logarithms (of data and constraint values),
+   the gap is exp(log data - log-trend); with exp/log behaving as such, trend * gap = data *)
+Theorem hpf_log_mode (a : hp_args O) (v : list (option F)) (t : Z) (g : F) :
+  (forall x z, ex (x - z) = ex x / ex z) -> (forall x, ex x != 0) -> (forall x, 0 < x -> ex (lg x) = x) ->
+  a_log O a = true -> hpf_gap_at O solve lg ex a v t = Some g ->
+  exists y ltr, at_period O (a_start O a) v t = Some y /\
+                hpf_trend_at O solve lg ex a v t = Some (ex ltr) /\
+                ltr = hp_trend O solve (enc_len O a) (smooth_of O a) (log_data O lg (enc_data O a v))
+                               (log_cs O lg (prepare O a (a_level O a)))
+                               (log_cs O lg (drop_first_date O (prepare O a (a_change O a))))
+                               (Z.to_nat (Z.sub t (enc_start O a))) /\
+                (0 < y -> ex ltr * g = y).
+Proof.
+move=> Hsub Hnz Hel Hl Hg.
+have [y [ltr [H1 [H2 [H3 H4]]]]] := hpf_gap_value_log O solve lg ex a v t g Hl Hg.
+exists y, ltr; split=> //; split=> //; split=> // Hy.
+by rewrite H4 /= Hsub (Hel _ Hy) mulrCA mulfV ?mulr1.
+Qed.
+
+End Readable.
